@@ -180,6 +180,14 @@ readArray:
 			dst = append(dst, float64(a.tape.Tape[a.off]))
 		case TagArrayEnd:
 			break readArray
+		case TagNop:
+			// Deleted elements: skip to the next live entry.
+			skip := int(a.tape.Tape[a.off-1] & JSONVALUEMASK)
+			if skip <= 0 {
+				return nil, errors.New("corrupt input: invalid nop skip")
+			}
+			a.off += skip - 1
+			continue
 		default:
 			return nil, fmt.Errorf("unable to convert type %v to float", tag)
 		}
@@ -234,6 +242,14 @@ readArray:
 			dst = append(dst, int64(val))
 		case TagArrayEnd:
 			break readArray
+		case TagNop:
+			// Deleted elements: skip to the next live entry.
+			skip := int(a.tape.Tape[a.off-1] & JSONVALUEMASK)
+			if skip <= 0 {
+				return nil, errors.New("corrupt input: invalid nop skip")
+			}
+			a.off += skip - 1
+			continue
 		default:
 			return nil, fmt.Errorf("unable to convert type %v to integer", tag)
 		}
@@ -288,6 +304,14 @@ readArray:
 			dst = append(dst, a.tape.Tape[a.off])
 		case TagArrayEnd:
 			break readArray
+		case TagNop:
+			// Deleted elements: skip to the next live entry.
+			skip := int(a.tape.Tape[a.off-1] & JSONVALUEMASK)
+			if skip <= 0 {
+				return nil, errors.New("corrupt input: invalid nop skip")
+			}
+			a.off += skip - 1
+			continue
 		default:
 			return nil, fmt.Errorf("unable to convert type %v to integer", tag)
 		}
